@@ -1,8 +1,9 @@
-SPECIFICATION Init
+SPECIFICATION Spec
 CONSTANTS
   Mode = "window"
   MCFields = {"time_begin"}
   MCValues = {"a"}
+  MCSub = ""
   MaxSets = 0
   WMax = 6
   TMax = 8
